@@ -17,7 +17,7 @@ if not os.path.isdir(WT):
     subprocess.run(["git", "-C", "/repo", "worktree", "add", "-q", "--detach", WT, "HEAD"], check=True)
 else:
     sh("git checkout -q --detach $(git -C /repo rev-parse HEAD) && git checkout -- . && git clean -fdq -e target")
-dirs = sorted(d for d in glob.glob(os.path.join(src, "C??-m?")) if not only or os.path.basename(d) in only)
+dirs = sorted(d for d in glob.glob(os.path.join(src, "C??-m*")) if not only or os.path.basename(d) in only)
 for d in dirs:
     name = os.path.basename(d)
     out = {"mutant": name, "repo_head": subprocess.run(["git","-C","/repo","rev-parse","--short","HEAD"],capture_output=True,text=True).stdout.strip()}
